@@ -98,7 +98,7 @@ impl Prop for C15 {
         "generated: networks (7 shapes incl. stars with degree up to 12+, parallel edges, self loops, isolated vertices) written as CSV with the edge columns in any order plus 0-3 extra columns, the vertex columns in any order plus 0-3 extra columns, with/without trailing newline, gzip (.gz) or plain independently per file, explicit or scanned counts, coordinates with 0-7 decimal digits; per-edge speed, heading and road-class tables (plain or gzip). Oracle: the reference adjacency list built from the same rows; every Graph accessor, both adjacency views, vertex coordinates (text parsed as f32), gzip = plain, table row i = edge i. non-trivial = some vertex with in- or out-degree >= 5 and a file with extra/reordered columns or gzip".to_string()
     }
     fn cases(&self, tier: Tier) -> u32 {
-        tier.pick(4_000, 200_000)
+        tier.pick(20_000, 400_000)
     }
     fn assumptions(&self) -> Vec<String> {
         vec![
